@@ -80,7 +80,7 @@ def run(v):
     v.add_mc("MC_LspServer/live", rl, "temporal property ComesToRest under WF of handler steps")
     trace = os.path.join(wd, "trace.ndjson")
     rc, out, err = common.run_hv(["c09", "--out", trace, "--seed", v.seed, "--batches", 400 if thorough else 100,
-                                  "--random-batches", 600 if thorough else 40, "--random-seq", 400 if thorough else 25], timeout=7200)
+                                  "--random-batches", 600 if thorough else 40, "--random-seq", 400 if thorough else 25, "--long-docs", 2 if thorough else 1], timeout=7200)
     if rc != 0:
         raise common.ToolError("hv c09 failed: " + err[-2000:])
     v.cov["distinct_nontrivial"] = validate(v, trace, "t")
